@@ -16,3 +16,4 @@ INVARIANT Drift_RandomClifford
 INVARIANT MarginalOK
 INVARIANT MarginalExactOK
 INVARIANT BigBirthdayOK
+INVARIANT RowMarginalOK
